@@ -162,6 +162,7 @@ def C05(F, rep, tier, cx):
     read/write symmetric"""
     RF.H1(F, rep, cx.FL)
     RF.H2(F, rep, cx.R, cx.FL)
+    RF.H3(F, rep)
     LR = run_layout(F, rep, roundtrip=True, only=[], extra_classes=(FILESTAT,))
     format_table(F, rep, LR, FILESTAT, FORMAT_FILESTATISTICS, 'F2', total=144)
     stat_size(F, rep)
@@ -194,8 +195,9 @@ def C07(F, rep, tier, cx):
     RP.K8(F, rep, cx.R, cx.FL)
     RF.K11(F, rep, cx.R, cx.FL)
     RP.Q(F, rep, cx.R, cx.FL)
-    rep.obs = [o for o in rep.obs if o['rule'] != 'Q1']
+    rep.obs = [o for o in rep.obs if o['rule'] not in ('Q1', 'Q3')]
     rep.counts.pop('Q1', None)
+    rep.counts.pop('Q3', None)
     RP.K1(F, rep, cx.R)
     rep.obs = [o for o in rep.obs if o['rule'] != 'K4']
     rep.counts.pop('K4', None)
